@@ -10,6 +10,7 @@ import (
 	"os/exec"
 	"path/filepath"
 	"runtime"
+	"runtime/debug"
 	"sort"
 	"strings"
 	"sync"
@@ -45,18 +46,22 @@ import (
 func init() {
 	run.Register(&run.Check{
 		ID: "C25", Title: "Rendering is deterministic regardless of scheduling",
-		LevelText:  "Exploration under the race detector: each generated diagram is rendered by dagre or ELK, with sketch mode on or off, twice sequentially, then from 4–8 goroutines at once together with other diagrams at GOMAXPROCS ∈ {1,2,4,16}, and by two fresh d2 CLI processes; all SVG outputs of the same (input, options) must be byte-identical and the race detector must stay silent on d2 frames.",
-		Technique:  "runtime monitoring: byte-equality oracle across sequential / concurrent / cross-process renders + Go race detector",
-		DesignRef:  "§4 C25",
-		Rule:       "cases: gen.Diagram × {dagre ×8/10, elk ×2/10} × sketch on (3/10) / off × GOMAXPROCS ∈ {1,2,4,16}; distinct by sha256(case); non-trivial when the input has ≥2 shapes, ≥2 sequential and ≥2 concurrent renders of it succeeded and were compared while ≥2 other renders were in flight",
-		Race:       true,
-		Needs:      []string{"d2"},
-		Chunk:      1,
-		Workers:    8,
-		CPUBudget:  1500,
-		WallBudget: 1800,
-		Gen:        genC25,
-		Exec:       execC25,
+		LevelText: "Exploration under the race detector: each generated diagram is rendered by dagre or ELK, with sketch mode on or off, twice sequentially, then from 4–8 goroutines at once together with other diagrams at GOMAXPROCS ∈ {1,2,4,16}, and by two fresh d2 CLI processes; all SVG outputs of the same (input, options) must be byte-identical and the race detector must stay silent on d2 frames.",
+		Technique: "runtime monitoring: byte-equality oracle across sequential / concurrent / cross-process renders + Go race detector",
+		DesignRef: "§4 C25",
+		Rule:      "cases: gen.Diagram × {dagre ×8/10, elk ×2/10} × sketch on (3/10) / off × GOMAXPROCS ∈ {1,2,4,16}; distinct by sha256(case); non-trivial when the input has ≥2 shapes, ≥2 sequential and ≥2 concurrent renders of it succeeded and were compared while ≥2 other renders were in flight",
+		Race:      true,
+		// The first (sequential) render of a case is run under recover and a panic there is
+		// skipped (totality of layout/render belongs to C17). Once that render has succeeded, a
+		// panic or a dead worker in a later render of the same input is non-determinism.
+		PanicIsViolation: true,
+		Needs:            []string{"d2"},
+		Chunk:            1,
+		Workers:          8,
+		CPUBudget:        1500,
+		WallBudget:       3600,
+		Gen:              genC25,
+		Exec:             execC25,
 	})
 }
 
@@ -114,8 +119,30 @@ func genC25(seed int64, tier string, emit func(run.Case)) {
 	}
 }
 
-// c25Render is one full in-process render: compile, layout, export, render every board.
-func c25Render(text, engine string, sketch bool) ([]byte, int, error) {
+// c25Panic is the error a recovered panic of a render is turned into.
+type c25Panic struct {
+	val   any
+	stack string
+}
+
+func (p *c25Panic) Error() string { return fmt.Sprintf("panic: %v", p.val) }
+
+// c25Render is one full in-process render: compile, layout, export, render every board. A
+// panic on the calling goroutine is returned as *c25Panic.
+func c25Render(text, engine string, sketch bool) (svg []byte, nShapes int, err error) {
+	defer func() {
+		if e := recover(); e != nil {
+			st := string(debug.Stack())
+			if i := strings.Index(st, "\npanic("); i >= 0 {
+				st = st[i+1:]
+			}
+			svg, err = nil, &c25Panic{val: e, stack: st}
+		}
+	}()
+	return c25RenderRaw(text, engine, sketch)
+}
+
+func c25RenderRaw(text, engine string, sketch bool) ([]byte, int, error) {
 	ro := &d2svg.RenderOpts{Sketch: c2rPtr(sketch)}
 	d, _, err := c2rCompile(text, engine, nil, ro)
 	if err != nil {
@@ -206,8 +233,29 @@ func execC25(c run.Case) (res run.Result) {
 	// ---- sequential
 	ref, nShapes, err := c25Render(in.Text, in.Engine, in.Sketch)
 	if err != nil {
+		if p, ok := err.(*c25Panic); ok {
+			sig, harness := run.PanicSig(fmt.Sprint(p.val), p.stack)
+			if harness {
+				panic(p.val)
+			}
+			res.CrashSkipped = sig // deterministic-looking crash of the very first render: C17's
+			return
+		}
 		res.Inc("vacuous_compile_or_layout_error")
 		return
+	}
+	errText := func(e error) string {
+		if p, ok := e.(*c25Panic); ok {
+			return p.Error() + "\n" + trunc(p.stack, 1500)
+		}
+		return e.Error()
+	}
+	errClass := func(e error) string {
+		if p, ok := e.(*c25Panic); ok {
+			sig, _ := run.PanicSig(fmt.Sprint(p.val), p.stack)
+			return ":" + sig
+		}
+		return ""
 	}
 	c2rFeatures(in.Text, res.Inc)
 	res.Inc("mode_" + mode)
@@ -215,7 +263,7 @@ func execC25(c run.Case) (res run.Result) {
 	seqOK := 1
 	again, _, err := c25Render(in.Text, in.Engine, in.Sketch)
 	if err != nil {
-		viol("C25.error-differs", "C25.error-differs:sequential:"+mode, fmt.Sprintf("first render succeeded, second failed: %v\n%s", err, in.Text))
+		viol("C25.error-differs", "C25.error-differs:sequential:"+mode+errClass(err), fmt.Sprintf("first render succeeded, second failed: %s\n%s", errText(err), in.Text))
 	} else {
 		seqOK++
 		res.Inc("renders_sequential")
@@ -264,7 +312,7 @@ func execC25(c run.Case) (res run.Result) {
 	for i, j := range jobs {
 		if j.self {
 			if errs[i] != nil {
-				viol("C25.error-differs", "C25.error-differs:concurrent:"+mode, fmt.Sprintf("sequential render succeeded, a concurrent one (GOMAXPROCS %d) failed: %v\n%s", in.Procs, errs[i], in.Text))
+				viol("C25.error-differs", "C25.error-differs:concurrent:"+mode+errClass(errs[i]), fmt.Sprintf("sequential render succeeded, a concurrent one (GOMAXPROCS %d) failed: %s\n%s", in.Procs, errText(errs[i]), in.Text))
 				continue
 			}
 			concOK++
